@@ -122,6 +122,17 @@ PRODS = {
         ("(let ((v (vector 1 2 3))) (vector-for-each (lambda (x) (set! v (vector x v))) (vector 4 5 6)) (vector->list v))", []),
         ("(eval '(map (lambda (x) (cons x {0})) '(1 2)) (the-env))", ["int"]),
         ("(char-list* {0})", ["str"]),
+        # errors raised by VM opcodes / primitives themselves: the exception object (message, irritants) is built while the
+        # irritants are only referenced from the VM stack; they are inspected after further allocation
+        ("(guard (e (#t (let ((junk (make-vector 40 {2}))) (list (error-object-message e) (error-object-irritants e) (vector-length junk))))) (vector-ref (vector {0} {1}) 5))", ["any", "any", "any"]),
+        ("(guard (e (#t (list (error-object-message e) (error-object-irritants e)))) (car {0}))", ["int"]),
+        ("(guard (e (#t (list (error-object-message e) (error-object-irritants e)))) (string-ref {0} 1000))", ["str"]),
+        ("(guard (e (#t (list (error-object-message e) (error-object-irritants e)))) (+ {0} {1}))", ["str", "big"]),
+        ("(guard (e (#t (list (error-object-message e) (error-object-irritants e)))) (vector-set! (vector 1) 7 {0}))", ["list"]),
+        ("(guard (e (#t (list (error-object? e) (error-object-irritants e)))) (apply (lambda (a) a) {0}))", ["list"]),
+        ("(guard (e (#t (list (error-object-message e) (error-object-irritants e)))) (bytevector-u8-ref {0} 999))", ["bv8"]),
+        ("(guard (e (#t (list (error-object-message e) (error-object-irritants e)))) (cdr (vector-ref (vector {0}) 0)))", ["str"]),
+        ("(guard (e (#t (list (error-object-message e) (error-object-irritants e)))) (quotient {0} 0))", ["big"]),
     ],
     "readable": [
         ('"(a b (c . d) #(1 2) \\"str\\" 1.5 #\\\\x)"', []), ("(number->string {0})", ["big"]),
